@@ -251,7 +251,7 @@ def parse_model(out, ops):
 
 
 def run(ctx):
-    ctx.simgrid(["simgrid"] if ctx.quick and not ctx.replay else ["simgrid", "simgrid-mc"])
+    ctx.simgrid(["simgrid"])
     ctx.prove()
     ctx.cov["rule"] = ("random programs: 1-6 actors, 1-2 barriers of size 0..6 (mostly <= number of actors), 1-4 waits per actor "
                        "separated by dyadic sleeps (ties on purpose), kernel-state PEEKs; non-trivial = some barrier released a group "
@@ -300,6 +300,7 @@ def run(ctx):
     if scases:
         run_split(ctx, scases, dist)
     if mcases:
+        ctx.simgrid(["simgrid", "simgrid-mc"])
         run_mc(ctx, mcases)
     nontriv = [False] * len(cases)
     blocked_forever = [False] * len(cases)
